@@ -8,6 +8,7 @@ CONSTANTS
   MaxSend = 2
   MaxAdv = 0
   CacheMax = 16
+  Extras = {}
   Asks = {FALSE}
 INVARIANTS Whitelist
 CHECK_DEADLOCK FALSE
